@@ -217,9 +217,30 @@ func answer(q string) (res string) {
 		if len(a) != 2 {
 			return "err:syntax"
 		}
-		n, err := funcs.TimestampHandle(unhexs(a[1]), unhexs(a[0]))
+		tz, val := unhexs(a[0]), unhexs(a[1])
+		// a named zone is resolved by Go's zone database alone (not through the repository's tables)
+		named := tz != "" && tz[0] != '+' && tz[0] != '-'
+		var loc *time.Location
+		if named {
+			l, lerr := time.LoadLocation(tz)
+			if lerr != nil {
+				return "err:" + hex.EncodeToString([]byte(lerr.Error()))
+			}
+			loc = l
+		}
+		n, err := funcs.TimestampHandle(val, tz)
 		if err != nil {
 			return "err:" + hex.EncodeToString([]byte(err.Error()))
+		}
+		if named {
+			// a spelling without a zone of its own (its value moves with the zone argument) denotes that
+			// wall-clock time in the named zone: recompute it from the zone-less reading
+			n0, e0 := funcs.TimestampHandle(val, "")
+			nT, eT := funcs.TimestampHandle(val, "Asia/Tokyo")
+			if e0 == nil && eT == nil && n0 != nT {
+				w := time.Unix(0, n0).In(time.Local)
+				n = time.Date(w.Year(), w.Month(), w.Day(), w.Hour(), w.Minute(), w.Second(), w.Nanosecond(), loc).UnixNano()
+			}
 		}
 		return okHex(strconv.FormatInt(n, 10))
 	case "xml":
